@@ -30,14 +30,14 @@ import (
 
 func init() {
 	engine.Register(&engine.Check{
-		ID:        "C20",
-		Technique: "exhaustive enumeration of the request / message input product through the real bundled HTTP and WebSocket code over the real stack in the deterministic world (frames pumped at a quiescence barrier), compared with what was sent and with an independent RFC 6455 frame codec and accept-key computation",
-		Rule:      "HTTP: methods {GET,HEAD,POST,PUT} x 4 paths (3 registered, 1 not) x all subsets of a 4-header menu x bodies {empty, 1 byte, 1 KiB, largest that fits one segment}; sequences of <=3 requests on fresh connections; WebSocket: accept key for 8 client keys; every message length 0..130 and 65530..65540 plus {200 KiB, 300 KiB}, unmasked (bundled client) and masked with keys {00000000, ffffffff, 01020304, 80000001} (raw client), sequences of <=3 messages in both directions; distinct = distinct input tuple; all non-trivial",
-		Assumes:   []string{"bodies and header values are in the grammar the bundled parser carries (no ': ' and no CRLF inside)", "a request fits one TCP segment (the HTTP layer reads a message with a single receive); MTU 65535 on the loopback wire"},
-		Jobs:      c20Jobs,
-		Run:       c20Run,
-		Replay:    c20Replay,
-		NeedRepro: true,
+		ID:         "C20",
+		Technique:  "exhaustive enumeration of the request / message input product through the real bundled HTTP and WebSocket code over the real stack in the deterministic world (frames pumped at a quiescence barrier), compared with what was sent and with an independent RFC 6455 frame codec and accept-key computation",
+		Rule:       "HTTP: methods {GET,HEAD,POST,PUT} x 4 paths (3 registered, 1 not) x all subsets of a 4-header menu x bodies {empty, 1 byte, 1 KiB, largest that fits one segment}; sequences of <=3 requests on fresh connections; WebSocket: accept key for 8 client keys; every message length 0..130 and 65530..65540 plus {200 KiB, 300 KiB}, unmasked (bundled client) and masked with keys {00000000, ffffffff, 01020304, 80000001} (raw client), sequences of <=3 messages in both directions; distinct = distinct input tuple; all non-trivial",
+		Assumes:    []string{"bodies and header values are in the grammar the bundled parser carries (no ': ' and no CRLF inside)", "a request fits one TCP segment (the HTTP layer reads a message with a single receive); MTU 65535 on the loopback wire"},
+		Jobs:       c20Jobs,
+		Run:        c20Run,
+		Replay:     c20Replay,
+		NeedRepro:  true,
 		WorkerJobs: 4,
 	})
 }
@@ -50,13 +50,13 @@ type c20Call struct {
 }
 
 var (
-	c20Once    sync.Once
-	c20Mu      sync.Mutex
-	c20Calls   []c20Call
-	c20Reply   func(path string) string
-	c20WSEcho  int // number of messages the ws handler echoes before it waits for close
-	c20WSGot   [][]byte
-	c20WSPush  [][]byte // messages the server pushes first
+	c20Once   sync.Once
+	c20Mu     sync.Mutex
+	c20Calls  []c20Call
+	c20Reply  func(path string) string
+	c20WSEcho int // number of messages the ws handler echoes before it waits for close
+	c20WSGot  [][]byte
+	c20WSPush [][]byte // messages the server pushes first
 )
 
 const c20Port = 8080
@@ -64,9 +64,9 @@ const c20Port = 8080
 var c20HeaderMenu = [][2]string{{"X-Token", "abc123"}, {"Content-Type", "text/plain"}, {"X-Empty-Like", "-"}, {"Accept-Language", "de"}}
 
 type c20World struct {
-	w      *World
-	n      *Node
-	frames int
+	w          *World
+	n          *Node
+	frames     int
 	tcpPayload []byte // concatenated TCP payload server->client of the last exchange (status line check)
 }
 
